@@ -38,6 +38,7 @@ structure St where
   futs : Nat → Fut
   ready : List Nat                 -- tasks with a step queued (start or wake-up)
   log : List (Option Int)          -- what the `.rx.watch` callback received
+  holder : Option Nat              -- ghost (never read): the evaluation whose result `cur` holds
 
 def upd {α : Type} (m : Nat → α) (k : Nat) (v : α) : Nat → α := fun i => if i = k then v else m i
 
@@ -49,11 +50,11 @@ def spawn (s : St) : St :=
 construction) and schedules evaluation 0 -/
 def St.init : St :=
   spawn { cur := none, currentTask := none, nTasks := 0, pcs := fun _ => none, futs := fun _ => .pending none,
-          ready := [], log := [] }
+          ready := [], log := [], holder := none }
 
 /-- the guarded store of `_resolve_async` followed by `_trigger.param.trigger('value')` -/
 def apply (s : St) (t : Nat) (v : Int) : St :=
-  if s.currentTask = some t then { s with cur := some v, log := s.log ++ [some v] } else s
+  if s.currentTask = some t then { s with cur := some v, log := s.log ++ [some v], holder := some t } else s
 
 def stepReady (s : St) : St :=
   match s.ready with
